@@ -590,6 +590,9 @@ func body(r *ev.Run) {
 		caseID := fmt.Sprintf("free/%d", i)
 		r.Do(caseID, func() {
 			s := freeRunning(r, i)
+			// every other scenario has a registered webhook whose target refuses connections: a failed delivery is an
+			// error to log, nothing more
+			s.DeadWebhook = i%2 == 0
 			if r.Thorough() && i%50 == 7 {
 				// peer churn driven by the sync manager's own timer: the peer it synced from reported, at the handshake, fewer
 				// blocks than it has now; after the sync it goes quiet, the periodic check judges it after three ticks and drops
